@@ -1478,6 +1478,168 @@ func mutType(r *rand.Rand, t sx.Sexp) sx.Sexp {
 	return mk(randType(r, 1))
 }
 
+// ---- length-boundary shapes -------------------------------------------------------------------------------------
+//
+// A container frames every element as <uvarint length><key>.  The shapes below put the *length fields* on their
+// boundaries (one byte ↔ two ↔ three: key lengths 127/128, 255/256/257, 16383/16384) and pair every such container with
+// the counterparts that are distinct values but would get the same bytes if a length field were truncated, mis-sized or
+// ignored: the same elements regrouped at every split point, and a *forged string element* whose content is the byte
+// image of the frames of the following elements.  The reference encoder is the harness's own (it must not depend on the
+// implementation under test, which may be the thing that is wrong).
+
+func refUvarint(n int) []byte {
+	out := []byte{}
+	for n >= 128 {
+		out = append(out, byte(n%128+128))
+		n /= 128
+	}
+	return append(out, byte(n))
+}
+
+// refMK: the marked key of an element (kinds b i s u a only)
+func refMK(e sx.Sexp) []byte {
+	a := e.Args()
+	switch e.Tag() {
+	case "u":
+		return []byte{1, 'u'}
+	case "b":
+		if a[0].MustBool() {
+			return []byte{1, 'b', 1}
+		}
+		return []byte{1, 'b', 0}
+	case "i":
+		n := uint64(a[0].MustInt())
+		out := []byte{1, 'i'}
+		for s := 56; s >= 0; s -= 8 {
+			out = append(out, byte(n>>uint(s)))
+		}
+		return out
+	case "s":
+		return append([]byte{1, 's'}, []byte(a[0].MustStr())...)
+	case "a":
+		out := []byte{0, 'A'}
+		for _, k := range a {
+			out = append(out, refElem(k)...)
+		}
+		return out
+	}
+	panic(fmt.Errorf("refMK: kind %s", e.Tag()))
+}
+
+func refElem(e sx.Sexp) []byte {
+	k := refMK(e)
+	return append(refUvarint(len(k)), k...)
+}
+
+// fill: elements (a string first, then booleans / an integer now and then) whose frames add up to exactly total bytes;
+// big = most of the room is taken by the string
+func fill(total int, big bool) []sx.Sexp {
+	from := 0
+	if big && total > 200 {
+		from = total - 120
+	}
+	for l := from; l < from+64; l++ {
+		first := sv(strings.Repeat("x", l))
+		rest := total - len(refElem(first))
+		if rest < 0 {
+			break
+		}
+		// rest = 4*bools + 11*ints
+		for ints := 0; ints < 4; ints++ {
+			if r := rest - 11*ints; r >= 0 && r%4 == 0 {
+				es := []sx.Sexp{first}
+				for i := 0; i < ints; i++ {
+					es = append(es, iv(int64(i)))
+				}
+				for i := 0; i < r/4; i++ {
+					es = append(es, sx.T("b", sx.Bool(i%2 == 0)))
+				}
+				return es
+			}
+		}
+	}
+	return nil
+}
+
+func boundaryPair(g *core.G, a, b sx.Sexp) {
+	g.Emit("eq " + a.String() + " " + b.String())
+	g.Emit("unique " + av(a, b, a).String())
+	g.Emit("get " + hv(a, iv(1)).String() + " " + b.String())
+}
+
+func boundaryShapes(g *core.G) {
+	targets := []int{124, 127, 128, 129, 252, 255, 256, 257, 260, 512, 16383, 16384, 16385}
+	for _, total := range targets {
+		for _, big := range []bool{false, true} {
+			if (total > 1000) != big && total > 1000 && !g.Thorough() {
+				continue // quick tier: the 16 KiB shapes only in their compact (big string) form
+			}
+			es := fill(total, big)
+			if es == nil {
+				continue
+			}
+			n := len(es)
+			whole := sx.T("a", es...)
+			g.Emit("key " + av(whole).String())
+			// split points: all of them for short lists, else the ends, the middle and wherever the frames of the
+			// suffix add up to a multiple of 128 (a length-field boundary)
+			splits := map[int]bool{0: true, 1: true, n / 2: true, n - 1: true, n: true}
+			suffix := 0
+			for j := n - 1; j >= 0; j-- {
+				suffix += len(refElem(es[j]))
+				if suffix%128 == 0 || n <= 70 {
+					splits[j] = true
+				}
+			}
+			count := 0
+			for j := 0; j <= n; j++ {
+				if !splits[j] || (total > 1000 && count >= 6) {
+					continue
+				}
+				count++
+				// [[e1..en]]  against  [[e1..ej], ej+1, .., en]   — once and twice nested
+				a := av(whole)
+				b := sx.T("a", append([]sx.Sexp{sx.T("a", es[:j]...)}, es[j:]...)...)
+				if a.String() == b.String() {
+					continue
+				}
+				boundaryPair(g, a, b)
+				if total < 1000 || j == 0 {
+					boundaryPair(g, av(a), av(b))
+					boundaryPair(g, hv(a, iv(1)), hv(b, iv(1)))
+					boundaryPair(g, ent(a, iv(1)), ent(b, iv(1)))
+				}
+			}
+			// the forged string: the first (string) element swallowing the frames of the elements after it
+			for _, j := range []int{1, n / 2} {
+				if j < 1 || j >= n {
+					continue
+				}
+				forged := es[0].Args()[0].MustStr()
+				for _, e := range es[1 : j+1] {
+					forged += string(refElem(e))
+				}
+				fs := append([]sx.Sexp{sv(forged)}, es[j+1:]...)
+				// and the other way round: everything after the first element swallowed
+				a := sx.T("a", fs...)
+				boundaryPair(g, whole, a)
+				boundaryPair(g, av(whole), av(a))
+			}
+			all := es[0].Args()[0].MustStr()
+			for _, e := range es[1:] {
+				all += string(refElem(e))
+			}
+			boundaryPair(g, whole, av(sv(all)))
+			boundaryPair(g, av(whole), av(av(sv(all))))
+			boundaryPair(g, hv(whole, iv(1)), hv(av(sv(all)), iv(1)))
+			// a string element on the boundary against its neighbours in length
+			l := total - 2
+			boundaryPair(g, av(sv(strings.Repeat("a", l))), av(sv(strings.Repeat("a", l+1))))
+			boundaryPair(g, av(sv(strings.Repeat("a", l))), av(sv(strings.Repeat("a", l)), sv("")))
+		}
+	}
+}
+
 func gen(g *core.G) {
 	r := g.Rng
 	u := universe()
@@ -1524,6 +1686,8 @@ func gen(g *core.G) {
 		a, b, cc := typeExprs[r.Intn(len(typeExprs))], typeExprs[r.Intn(len(typeExprs))], typeExprs[r.Intn(len(typeExprs))]
 		g.Emit("@teq3 " + sx.Str(a).Atom + " " + sx.Str(b).Atom + " " + sx.Str(cc).Atom)
 	}
+	// length-field boundaries with their regrouped / forged counterparts
+	boundaryShapes(g)
 	// 2. structured random cases: related pairs on purpose
 	n := 2500 * g.Scale
 	for i := 0; i < n; i++ {
